@@ -26,6 +26,13 @@ template class bspline::Spline<VT_CASE_T, 4>;
 template class bspline::Spline<VT_CASE_T, 5>;
 template class bspline::Spline<VT_CASE_T, 6>;
 template class bspline::Spline<VT_CASE_T, 7>;
+#ifdef VT_CASE_HIGH
+template class bspline::Spline<VT_CASE_T, 8>;
+template class bspline::Spline<VT_CASE_T, 9>;
+template class bspline::Spline<VT_CASE_T, 10>;
+template class bspline::Spline<VT_CASE_T, 11>;
+template class bspline::Spline<VT_CASE_T, 12>;
+#endif
 
 namespace vt_case {
 using namespace bspline;
@@ -139,6 +146,15 @@ void inst2() {
   (void)quad2(a, b); (void)quad5(a, b);
 #endif
 }
+#ifdef VT_CASE_HIGH
+// high-order slice (unit cases_high): the same named cases for spline orders 5 and 6
+template void inst1<5>();
+template void inst1<6>();
+template void inst2<5, 5>();
+template void inst2<6, 2>();
+template void inst2<2, 6>();
+template void inst2<4, 5>();
+#else
 template void inst1<0>();
 template void inst1<1>();
 template void inst1<2>();
@@ -150,5 +166,6 @@ template void inst2<1, 1>();
 template void inst2<2, 1>();
 template void inst2<0, 3>();
 template void inst2<2, 2>();
+#endif
 }  // namespace vt_case
 #endif
